@@ -54,11 +54,38 @@ def recursive_nts(P):
     return rec
 
 
+def intrinsically_recursive(P, keep):
+    """nonterminals on a cycle that does not pass through a nonterminal in `keep` (a nonterminal that is
+    recursive only through `keep` can be inlined; the result does not depend on the order of inlining)"""
+    nts = nonterminals(P)
+    g = defaultdict(set)
+    for l, r, _ in P:
+        if l in keep:
+            continue
+        for s in r:
+            if s in nts and s not in keep:
+                g[l].add(s)
+    rec = set()
+    for a in nts - set(keep):
+        seen = set()
+        todo = list(g[a])
+        while todo:
+            x = todo.pop()
+            if x == a:
+                rec.add(a)
+                break
+            if x in seen:
+                continue
+            seen.add(x)
+            todo.extend(g[x])
+    return rec
+
+
 def inline_nonrecursive(P, keep):
-    """inline every non-recursive nonterminal not in `keep` into its uses"""
+    """inline every nonterminal that is neither in `keep` nor recursive without passing through `keep`"""
     P = [(l, list(r), t) for l, r, t in P]
     while True:
-        rec = recursive_nts(P)
+        rec = intrinsically_recursive(P, keep)
         nts = nonterminals(P)
         cand = [n for n in sorted(nts) if n not in rec and n not in keep]
         # only inline nonterminals that are used somewhere
